@@ -1714,3 +1714,29 @@ def r11_9(ctx):
     else:
         ctx.bad("has_solicited_node|partial-compare", "has_solicited_node() decides from a few low-order octets only, without the solicited-node prefix: any destination - a foreign unicast "
                 "address included - whose last octets equal those of one of our addresses is accepted as ours (and answered, with the foreign address as source)", body=b)
+
+
+@rule('R17.9', ['C17', 'C05', 'C04'], floor=2, clause='a socket enters LISTEN only through reset(): both listen() and the return from an aborted handshake (RST in SYN-RECEIVED) start the next connection from re-initialised connection state (peer MSS, window scale, last ACK/window, timers)')
+def r17_9(ctx):
+    F = ctx.F
+    SOCK = 'socket::tcp::Socket'
+    rs = ctx.method(SOCK, 'reset')
+    ss = ctx.method(SOCK, 'set_state')
+    n = 0
+    for fn in ('listen', 'process'):
+        b = ctx.method(SOCK, fn)
+        sites = []
+        for x in b.calls():
+            if b.callee_name(x[1]) == ss.key and len(x[2]) >= 2:
+                o = strip(simplify(F.origin.operand(b, x[2][1], x[0], len(b.blocks[x[0]]['s']))))
+                if o[0] == 'variant' and o[1].endswith('State::Listen'):
+                    sites.append(x[0])
+        for s_ in sites:
+            n += 1
+            resets = {x[0] for x in b.calls() if b.callee_name(x[1]) == rs.key}
+            if s_ in b.reachable(cut_blocks=resets):
+                ctx.bad(f"{fn}|listen-without-reset", f"tcp::Socket::{fn} puts the socket into LISTEN without reset(): what the aborted connection negotiated (peer MSS, window scale, "
+                        "last ACK / window) is applied to the next peer - e.g. segments larger than the next peer's MSS", body=b, bb=s_)
+            else:
+                ctx.ok((fn, 'listen via reset', s_), sample=dict(fn=fn, enters='LISTEN', after='reset()'))
+    ctx.need(n >= 2, f"transitions into LISTEN (found {n})")
